@@ -1,5 +1,6 @@
 mod crypto;
 mod dispatch;
+mod emit;
 mod kernels;
 mod kzg;
 mod prog;
@@ -128,6 +129,15 @@ fn answer(line: &str, cap: usize) -> String {
             let toks: Vec<&str> = line.split(' ').filter(|s| !s.is_empty()).collect();
             catch_unwind(AssertUnwindSafe(|| kzg::answer(&toks))).unwrap_or_else(|_| "panic".to_string())
         }
+        "verify" | "vroundtrip" | "proofdec" => {
+            let toks: Vec<&str> = line.split(' ').filter(|s| !s.is_empty()).collect();
+            catch_unwind(AssertUnwindSafe(|| match toks[0] {
+                "verify" => emit::verify_line(&toks),
+                "vroundtrip" => emit::vroundtrip_line(&toks),
+                _ => emit::proofdec_line(&toks),
+            }))
+            .unwrap_or_else(|_| "panic".to_string())
+        }
         "tr" | "g1dec" | "g2dec" | "g1mul" | "g1add" | "g2mul" => {
             let toks: Vec<&str> = line.split(' ').filter(|s| !s.is_empty()).collect();
             catch_unwind(AssertUnwindSafe(|| crypto::answer(&toks))).unwrap_or_else(|_| "panic".to_string())
@@ -151,6 +161,18 @@ fn main() {
                     continue;
                 }
                 writeln!(out, "{}", answer(&line, cap)).unwrap();
+            }
+        }
+        Some("emitv") | Some("emitforced") => {
+            // args: emitv <seed> <budget>; programs on stdin
+            let seed: u64 = args.get(2).and_then(|s| s.parse().ok()).unwrap_or(1);
+            let budget: usize = args.get(3).and_then(|s| s.parse().ok()).unwrap_or(64);
+            let lines: Vec<String> = std::io::stdin().lock().lines().map(|l| l.expect("stdin")).collect();
+            let outs = if args[1] == "emitv" { emit::emit(pp(cap), seed, budget, &lines) } else { emit::emit_forced(pp(cap), seed, &lines) };
+            let stdout = std::io::stdout();
+            let mut out = stdout.lock();
+            for l in outs {
+                writeln!(out, "{}", l).unwrap();
             }
         }
         Some(other) => {
